@@ -13,7 +13,7 @@ import warnings
 from . import sigs, oracle, monitor
 from .sigs import PO, PK, VA, KO, VK
 from .sigutil import (bparams, meta, meta_equal, show, show_params, is_bare_stars,
-                      plain_copy, sources_view, src_as_sets, src_exact, deep_snapshot)
+                      plain_copy, sources_view, src_as_sets, src_exact, deep_snapshot, kwo_sorted)
 from .monitor import Monitor
 
 
@@ -594,7 +594,7 @@ class MaskMonitor(Monitor):
                                        first=show(value) if ok else repr(value),
                                        second=show(other) if ook else repr(other)), rp)
                     break
-                if ok and (not meta_equal(meta(other), meta(value)) or
+                if ok and (not meta_equal(kwo_sorted(meta(other)), kwo_sorted(meta(value))) or
                            src_as_sets(other) != src_as_sets(value)):
                     ctx.violation('C03', 'MaskMonitor', 'mask-order-dependent-result',
                                   'mask result depends on the order in which names are listed',
